@@ -574,6 +574,22 @@ def m_get(reg, eng, st, recv, args, kwargs, node, rexpr):
     return [(st, V(("opt", recv.t[2]), (znot(present), val)))]
 
 
+def m_pop_dict(reg, eng, st, recv, args, kwargs, node, rexpr):
+    """d.pop(key) without a default: KeyError iff the key is absent; returns the stored value and removes the key."""
+    if len(args) != 1 or kwargs or recv.x is None:
+        raise OutOfSubset("dict.pop with a default / on an untyped dict")
+    key = to_term(coerce(args[0], recv.t[1]))
+    present = z3.Select(recv.x[0], key)
+    s_err = st.fork()
+    s_err.assume(znot(present))
+    if feasible(s_err):
+        eng.do_raise(s_err, "KeyError", node.lineno)
+    st.assume(present)
+    val = from_term(recv.t[2], z3.Select(recv.x[1], key))
+    _store(eng, st, rexpr, V(recv.t, (z3.Store(recv.x[0], key, FALSE), recv.x[1])), recv)
+    return [(st, val)]
+
+
 # ------------------------------------------------------------------ str
 def m_startswith(reg, eng, st, recv, args, kwargs, node, rexpr):
     (p,) = args
@@ -617,6 +633,19 @@ def m_strip(reg, eng, st, recv, args, kwargs, node, rexpr):
     raise OutOfSubset("str.strip")
 
 
+def m_rstrip(reg, eng, st, recv, args, kwargs, node, rexpr):
+    """s.rstrip(c) for ONE literal character c: the unique r with s == r + c*k (k >= 0) and r not ending in c. Anything else is refused."""
+    if len(args) != 1 or kwargs or recv.t[0] != "str" or args[0].t[0] != "str" or not z3.is_string_value(z3.simplify(args[0].x)) \
+            or len(z3.simplify(args[0].x).as_string()) != 1:
+        raise OutOfSubset("str.rstrip with anything but one literal character")
+    ch = z3.simplify(args[0].x)
+    # the result is a FUNCTION of the string (so specifications can name it: rstrip_char), characterised at each use
+    r = z3.Function("rstrip_char", z3.StringSort(), z3.StringSort(), z3.StringSort())(recv.x, ch)
+    t = z3.Const(fresh_name("stripped_tail"), z3.StringSort())
+    st.assume(z3.And(recv.x == z3.Concat(r, t), z3.InRe(t, z3.Star(z3.Re(ch))), z3.Not(z3.SuffixOf(ch, r))))
+    return [(st, vstr(r))]
+
+
 def m_split(reg, eng, st, recv, args, kwargs, node, rexpr):
     (sep,) = args
     return [(st, V(("seq", ("str",)), reg.split_fn(eng, st, recv, sep)))]
@@ -644,7 +673,7 @@ METHODS = {
     "set": {"add": m_add, "update": m_update, "remove": m_remove, "discard": m_discard, "pop": m_pop_set,
             "intersection": m_intersection, "union": m_union},
     "emptyset": {"add": m_add, "update": m_update},
-    "dict": {"items": m_items, "keys": m_keys, "values": m_values, "get": m_get},
+    "dict": {"items": m_items, "keys": m_keys, "values": m_values, "get": m_get, "pop": m_pop_dict},
     "str": {"append": m_append, "startswith": m_startswith, "endswith": m_endswith, "join": m_join, "split": m_split,
-            "replace": m_str_replace, "strip": m_strip},
+            "replace": m_str_replace, "strip": m_strip, "rstrip": m_rstrip},
 }
